@@ -1,3 +1,51 @@
-(* C11, HLL part -- statements only (being built). *)
-From DS Require Import Base.Prelude Model.Hll Model.HllCodec.
+(* C11, HLL part -- serialize then deserialize is lossless.  Statements only; proofs in
+   Proofs/HllCodecProofs.v.
+   [hll_serialize] / [hll_deserialize] (Model/HllCodec.v) mirror HllSketch::serialize / deserialize
+   byte by byte (List, HashSet, Array4 with its aux list, Array6, Array8), the REPAIRED reader
+   (defect D1: a list image was read into a list sized by its coupon count; /repo fix efc0a54).
+   [SrcOK lg_k arr cs s]: s represents the coupon list cs (C03).  [rt_ok lg_k cs s s'] says what
+   the copy s' is:
+     list  -- the IDENTICAL list (8 slots, the same coupons in the same order) and type;
+     set   -- same type, lg size and count; the rebuilt table holds exactly the coupons cs and
+              satisfies the open-addressing invariant (the slot layout is not carried by the image);
+     Hll4  -- the Array4 invariant of C02 for the SAME register file, same cur_min and
+              num_at_cur_min (the aux map is rebuilt: same exceptions as a finite map);
+     Hll6 / Hll8 -- the same registers, the same num_zeros;
+     arrays -- the estimator fields are the 8-byte patterns decoded again ([est_reread]): that
+              float_of_bits (bits_of_float f) = f is NOT proved (tied by the correspondence run,
+              which compares hip/kxq0/kxq1 bit for bit); the out-of-order flag is kept. *)
+From DS Require Import Base.Prelude Model.Hll Model.HllCodec Proofs.HllBase Proofs.HllSet Proofs.HllArray4
+  Proofs.HllUnionProofs Proofs.HllCodecProofs.
 Open Scope N_scope.
+
+(* any well-formed sketch (built, merged, deserialized; any type, mode, estimator state) *)
+Theorem c11_hll_roundtrip :
+  forall lgk arrf cs s, SrcOK lgk arrf cs s -> list_lg_ok s ->
+  exists s', hll_deserialize (hll_serialize s) = Ok s' /\ rt_ok lgk cs s s'.
+Proof. exact hll_roundtrip. Qed.
+
+(* every state reachable by updates (all lg_k, types, streams) *)
+Theorem c11_hll_roundtrip_of_stream :
+  forall lgk t cs, 4 <= lgk <= 21 -> Forall valid cs ->
+  exists s s', run_stream hip_new hip_update hip_carry lgk t cs = Ok s /\
+    hll_deserialize (hll_serialize s) = Ok s' /\ rt_ok lgk cs s s'.
+Proof. exact hll_roundtrip_of_stream. Qed.
+
+(* the copy is a well-formed representation of the same abstract state: the theorems of C02 (further
+   updates) and C03 (merges) apply to it exactly as to the original.
+   PARTIAL for Hll6: the copy has the same registers and num_zeros, but SrcOK also speaks about reads
+   beyond slot k (the padding byte), which the image does not constrain. *)
+Theorem c11_hll_copy_is_wellformed_partial :
+  forall lgk arrf cs s s', SrcOK lgk arrf cs s -> rt_ok lgk cs s s' ->
+  (forall a, sk_mode s <> MArr6 a) -> SrcOK lgk arrf cs s'.
+Proof. exact rt_src_ok. Qed.
+
+(* the list case in full: the copy is the original (this is what defect D1 broke) *)
+Theorem c11_hll_list_identical :
+  forall lgk t (l : hlist) ds, 4 <= lgk <= 21 -> ListInv l ds -> hl_lg l = 3 -> (length ds < 8)%nat ->
+  Forall valid ds -> hll_deserialize (list_serialize l lgk t) = Ok (mkSketch lgk (MList l t)).
+Proof. exact list_roundtrip. Qed.
+
+(* non-vacuity: the example streams of C02 are valid inputs *)
+Example c11_hll_example : Forall valid Proofs.HllC02.ex_stream /\ Forall valid Proofs.HllC02.ex_stream2.
+Proof. exact Proofs.HllC02.ex_stream_valid. Qed.
